@@ -165,7 +165,33 @@ func evalC05(c c05Case) (f *Failure, nontrivial bool) {
 		for _, cs := range clients {
 			cs.s.Connect()
 		}
+		// a broadcast in every namespace while the slow ones (500 ms middleware) are still deciding about the CONNECT:
+		// a connection that has not been admitted yet must not receive it (the others may or may not be connected by now)
+		settle(100 * time.Millisecond)
+		earlyMustNot := map[string]bool{}
+		for i, name := range c.Namespaces {
+			norm := normNsp(name)
+			nsps[i].Emit("bc", norm+"|*|early")
+			if c.DelayMs[i] >= 500 {
+				earlyMustNot[norm] = true
+				nontrivial = true
+			}
+		}
 		settle(5 * time.Second)
+		mu.Lock()
+		for t, n := range recv {
+			if tok, rcv, _ := strings.Cut(t, "@"); strings.HasSuffix(tok, "|early") {
+				norm := strings.TrimSuffix(tok, "|*|early")
+				if earlyMustNot[norm] && n > 0 {
+					set(fail("attached-only-when-accepted", fmt.Sprintf("a broadcast in namespace %q issued while its middleware was still deciding about the CONNECT was delivered to %s (%d times)", norm, rcv, n)))
+				}
+				delete(recv, t)
+			}
+		}
+		mu.Unlock()
+		if res != nil {
+			return
+		}
 		rejected := ""
 		if c.Reject >= 0 {
 			rejected = normNsp(c.Namespaces[c.Reject])
@@ -379,7 +405,7 @@ func TestC05_Isolation(t *testing.T) {
 	setT(t)
 	defer startWatchdog(t, 60*time.Second)()
 	ev := NewEv(t, "C05", c05Check, "rapid on the virtual-time rig: 2..5 namespaces drawn from look-alikes (/, '', /a, a, /ab, /a/b, '/a b', /ä, /0, /12, /a\", /A, /a-, /1-2), one manager with a socket per "+
-		"namespace (shared connection) plus a second manager on a subset, per-namespace middleware delays (CONNECT replies in any order), optionally one rejecting namespace; 2..20 operations: emits both "+
+		"namespace (shared connection) plus a second manager on a subset, per-namespace middleware delays (CONNECT replies in any order) with a broadcast issued in every namespace while the slow ones are still deciding, optionally one rejecting namespace; 2..20 operations: emits both "+
 		"ways, ack round trips, namespace and room broadcasts (same room name everywhere), client-side disconnect of one namespace and joining it again later on the same connection; every token names its namespace and connection; oracle: a handler of "+
 		"(X, k) only ever sees tokens of X/k, deliveries == expectations exactly, acks return to the emitter, a rejected namespace yields connect_error once and never connects, after the disconnects every "+
 		"other namespace of the connection still completes an ack round trip; non-trivial = >= 2 namespaces on one connection with one a prefix of another")
